@@ -126,20 +126,35 @@ func buildC13Workload(c *Ctx) *c13Workload {
 		}
 		mk(items)
 	}
+	// one large list (index 14): 1500 entries, every fourth one a different invalid string. Only two calls use it
+	// (ValidateLicenses: the order of the reported entries must never vary; Satisfies("MIT", big): error text stable).
+	big := make([]string, 1500)
+	for i := range big {
+		switch {
+		case i%4 == 1:
+			big[i] = "invalid-" + strconv.Itoa((i*7919)%1000)
+		case i%50 == 7:
+			big[i] = "MIT AND"
+		default:
+			big[i] = u.Active[(i*31)%len(u.Active)]
+		}
+	}
+	mk(big)
 	for _, l := range w.lists {
 		w.snap = append(w.snap, append([]string{}, l[:cap(l)]...))
 	}
 	// calls
 	for i := range w.exprs {
 		w.calls = append(w.calls, c13Call{Fn: 2, Expr: i})
-		w.calls = append(w.calls, c13Call{Fn: 1, Expr: i, List: 1 + r.Intn(len(w.lists)-1)})
+		w.calls = append(w.calls, c13Call{Fn: 1, Expr: i, List: 1 + r.Intn(13)})
 		if i%3 == 0 {
-			w.calls = append(w.calls, c13Call{Fn: 1, Expr: i, List: r.Intn(len(w.lists))})
+			w.calls = append(w.calls, c13Call{Fn: 1, Expr: i, List: r.Intn(14)})
 		}
 	}
 	for j := range w.lists {
 		w.calls = append(w.calls, c13Call{Fn: 3, List: j})
 	}
+	w.calls = append(w.calls, c13Call{Fn: 1, Expr: 0, List: 14}, c13Call{Fn: 3, List: 14})
 	return w
 }
 
@@ -461,6 +476,38 @@ func runC13Reuse(c *Ctx, w *c13Workload) {
 		}
 		c.Inc("reuse_cases")
 		c.Distinct(gen.HashStr("reuse", strconv.Itoa(i)))
+	}
+	// results belong to the caller: modifying a returned slice must not influence later calls
+	for i := 0; i < 400; i++ {
+		if !c.Mine(i) {
+			continue
+		}
+		e := w.exprs[(i*13)%len(w.exprs)]
+		l1, err1 := spdxexp.ExtractLicenses(e)
+		want := fmt.Sprintf("%q %v", l1, err1 != nil)
+		for j := range l1 {
+			l1[j] = "clobbered-by-caller"
+		}
+		l1 = append(l1[:0], "x", "y")
+		l2, err2 := spdxexp.ExtractLicenses(e)
+		c.evals += 2
+		if got := fmt.Sprintf("%q %v", l2, err2 != nil); got != want {
+			c.Violation("result-aliased:ExtractLicenses", "C13.reuse", C13Case{Kind: "result-aliased", Call: map[string]any{"expr": ev.QS(e)}, Want: want, Got: got},
+				"ExtractLicenses(%q) returned %s, the caller modified that slice, and the same call now returns %s", e, want, got)
+		}
+		lst := w.lists[i%14]
+		_, inv1 := spdxexp.ValidateLicenses(lst)
+		wantV := fmt.Sprintf("%q", inv1)
+		for j := range inv1 {
+			inv1[j] = "clobbered-by-caller"
+		}
+		_, inv2 := spdxexp.ValidateLicenses(lst)
+		c.evals += 2
+		if got := fmt.Sprintf("%q", inv2); got != wantV {
+			c.Violation("result-aliased:ValidateLicenses", "C13.reuse", C13Case{Kind: "result-aliased", Want: wantV, Got: got},
+				"ValidateLicenses returned %s, the caller modified that slice, and the same call now returns %s", wantV, got)
+		}
+		c.Inc("result_aliasing_checks")
 	}
 	// churn: many distinct inputs, then the same again in reverse (one child: the point is one process seeing them all)
 	if c.Shard != 0 {
